@@ -42,12 +42,13 @@ func schemeSigner(scheme string, k *ecdsa.PrivateKey) (neofscrypto.Signer, refs.
 	return neofsecdsa.Signer(*k), refs.SignatureScheme_ECDSA_SHA512
 }
 
-// replicateOnce performs one Replicate call on the real server and returns the record.
-func (w *World) replicateOnce(in ReplIn, signObject bool) kit.M {
+// replRequest builds a Replicate request with the given abstract defects, signed (or mis-signed) by sender.
+// Returns the request, the (undamaged) object and the presented key bytes.
+func (w *World) replRequest(sigCls, schemeCls, objCls string, sender *ecdsa.PrivateKey) (*protoobject.ReplicateRequest, *object.Object, []byte) {
 	d := w.cnrs["pub"]
 	obj := w.newObject(d, w.owner, "replica "+uuid.NewString(), "k", "v")
 	mo := obj.ProtoMessage()
-	switch in.Obj {
+	switch objCls {
 	case "badpayload":
 		mo.Payload = append([]byte("x"), mo.Payload[1:]...) // same length, other bytes: checksum mismatch
 	case "badheader":
@@ -59,20 +60,25 @@ func (w *World) replicateOnce(in ReplIn, signObject bool) kit.M {
 		o2.SetID(obj.GetID()) // no checksum, no signature
 		mo = o2.ProtoMessage()
 	}
-	sender := newKey()
-	signer, scheme := schemeSigner(in.Scheme, sender)
+	signer, scheme := schemeSigner(schemeCls, sender)
 	id := obj.GetID()
 	data := id[:]
-	if in.Sig == "bad" {
+	if sigCls == "bad" {
 		data = []byte("something else")
 	}
 	sig, err := signer.Sign(data)
 	kit.Must(err)
 	keyBytes := pubBytes(sender)
-	if in.Sig == "otherkey" { // a valid signature, but of another key than the one presented
+	if sigCls == "otherkey" { // a valid signature, but of another key than the one presented
 		keyBytes = pubBytes(newKey())
 	}
-	req := &protoobject.ReplicateRequest{Object: mo, Signature: &refs.Signature{Key: keyBytes, Sign: sig, Scheme: scheme}, SignObject: signObject}
+	return &protoobject.ReplicateRequest{Object: mo, Signature: &refs.Signature{Key: keyBytes, Sign: sig, Scheme: scheme}}, obj, keyBytes
+}
+
+// replicateOnce performs one Replicate call on the real server and returns the record.
+func (w *World) replicateOnce(in ReplIn, signObject bool) kit.M {
+	req, obj, keyBytes := w.replRequest(in.Sig, in.Scheme, in.Obj, newKey())
+	req.SignObject = signObject
 
 	w.repl = &replCfg{clientKey: keyBytes, client: in.Client, server: in.Server, unknownContainer: in.Cnr == "unknown"}
 	defer func() { w.repl = nil }()
@@ -163,4 +169,146 @@ func cmdReplicateReplay(in, out string) {
 	wr.Emit(w.replicateOnce(doc.Replay.In, false))
 	wr.Close()
 	fmt.Println(`{"records":1}`)
+}
+
+// ---------------------------------------------------------------------------------------------
+// histories: several requests against ONE server instance while epochs advance and membership changes
+
+type histStep struct {
+	Ev     string `json:"ev"` // Tick | Req
+	C      []bool `json:"c,omitempty"`
+	S      bool   `json:"s,omitempty"`
+	Snd    int    `json:"snd,omitempty"`
+	Sig    string `json:"sig,omitempty"`
+	Scheme string `json:"scheme,omitempty"`
+	Obj    string `json:"obj,omitempty"`
+	Cnr    string `json:"cnr,omitempty"`
+}
+type histScript struct {
+	Steps []histStep `json:"steps"`
+	Src   string     `json:"src,omitempty"`
+}
+
+const histSenders = 2
+
+// runHistory replays one history on a fresh objectsvc.Server (same world underneath) and appends its events.
+func (w *World) runHistory(sc histScript, tw *kit.W) (nReq, nOK int) {
+	srv := w.mkSrv()
+	keys := make([]*ecdsa.PrivateKey, histSenders)
+	h := &histCfg{mem: map[uint64]histMem{}}
+	for i := range keys {
+		keys[i] = newKey()
+		h.keys = append(h.keys, pubBytes(keys[i]))
+	}
+	w.epoch.Store(curEpoch)
+	h.mem[curEpoch] = histMem{c: make([]bool, histSenders)}
+	w.hist = h
+	defer func() { w.hist = nil; w.epoch.Store(curEpoch) }()
+	w.maint.Store(false)
+	tw.Emit(kit.M{"ev": "New"})
+	for _, st := range sc.Steps {
+		switch st.Ev {
+		case "Tick":
+			c := make([]bool, histSenders)
+			copy(c, st.C)
+			e := w.epoch.Add(1)
+			h.mem[e] = histMem{c: c, s: st.S}
+			tw.Emit(kit.M{"ev": "Tick", "c": c, "s": st.S})
+		case "Req":
+			cnr := st.Cnr
+			if cnr == "" {
+				cnr = "known"
+			}
+			req, obj, _ := w.replRequest(st.Sig, st.Scheme, st.Obj, keys[st.Snd-1])
+			if cnr == "unknown" {
+				panic("unknown container is not part of the history alphabet")
+			}
+			w.rec.Start()
+			ctx, cancel := context.WithTimeout(context.Background(), 20*time.Second)
+			resp, err := srv.Replicate(ctx, req)
+			cancel()
+			raw := w.rec.Stop()
+			code := -1
+			if err == nil {
+				code = int(resp.GetStatus().GetCode())
+			}
+			stored := false
+			for _, e := range raw {
+				if e["ev"] == "StWrite" {
+					stored = true
+				}
+			}
+			_, herr := w.eng.Head(context.Background(), obj.Address(), true)
+			ok := err == nil && code == 0
+			nReq++
+			if ok {
+				nOK++
+			}
+			tw.Emit(kit.M{"ev": "Req", "snd": st.Snd, "sig": st.Sig, "scheme": st.Scheme, "obj": st.Obj, "cnr": cnr, "code": code,
+				"epoch": int(w.epoch.Load() - curEpoch), "out": kit.M{"ok": ok, "stored": stored, "present": herr == nil}})
+		default:
+			panic("unknown history step " + st.Ev)
+		}
+	}
+	return
+}
+
+// cmdReplicateHist: rpc replicate-hist <scripts.ndjson> <trace.ndjson>
+func cmdReplicateHist(in, out string) {
+	scripts := kit.ReadNDJSON[histScript](in)
+	dir, err := os.MkdirTemp("", "rpcworld")
+	kit.Must(err)
+	w := NewWorld(dir)
+	defer w.Close()
+	tw := kit.NewW(out)
+	nReq, nOK := 0, 0
+	for _, sc := range scripts {
+		a, b := w.runHistory(sc, tw)
+		nReq += a
+		nOK += b
+	}
+	tw.Close()
+	b, _ := json.Marshal(kit.M{"histories": len(scripts), "requests": nReq, "accepted": nOK, "events": tw.N})
+	fmt.Println(string(b))
+}
+
+// cmdReplicateGen: rpc replicate-gen <n> <scripts.ndjson>: seeded random histories, biased towards the interesting
+// region (valid requests of few senders, the local node mostly in the container, membership flapping).
+func cmdReplicateGen(n int, out string) {
+	rnd := kit.Rand(3131)
+	wr := kit.NewW(out)
+	pick := func(xs []string, w0 int) string { // first element with weight w0, the others 1 each
+		k := rnd.Intn(w0 + len(xs) - 1)
+		if k < w0 {
+			return xs[0]
+		}
+		return xs[k-w0+1]
+	}
+	for i := 0; i < n; i++ {
+		ln := 3 + rnd.Intn(8)
+		var sc histScript
+		sc.Src = "random"
+		reqs := 0
+		for j := 0; j < ln; j++ {
+			if rnd.Intn(100) < 45 {
+				c := make([]bool, histSenders)
+				for k := range c {
+					c[k] = rnd.Intn(100) < 45
+				}
+				sc.Steps = append(sc.Steps, histStep{Ev: "Tick", C: c, S: rnd.Intn(100) < 85})
+				continue
+			}
+			if reqs >= 4 {
+				continue
+			}
+			reqs++
+			sc.Steps = append(sc.Steps, histStep{Ev: "Req", Snd: 1 + rnd.Intn(histSenders),
+				Sig:    pick([]string{"ok", "bad", "otherkey"}, 12),
+				Scheme: pick([]string{"sha512", "rfc6979", "walletconnect", "n3", "unknown"}, 6),
+				Obj:    pick([]string{"valid", "badpayload", "badheader", "nochecksum"}, 12),
+				Cnr:    "known"})
+		}
+		wr.Emit(sc)
+	}
+	wr.Close()
 }
